@@ -195,6 +195,15 @@ pub(crate) struct JsFunctionScopeWriter<'a, W: fmt::Write> {
     top_scope: &'a mut JsTopScopeWriter<W>,
 }
 
+/// Words that cannot be used as a variable name in (strict or sloppy) JavaScript, or that the generated code relies on.
+const RESERVED_VAR_NAMES: [&'static str; 53] = [
+    "break", "case", "catch", "class", "const", "continue", "debugger", "default", "delete", "do", "else", "enum",
+    "export", "extends", "false", "finally", "for", "function", "if", "import", "in", "instanceof", "new", "null",
+    "return", "super", "switch", "this", "throw", "true", "try", "typeof", "var", "void", "while", "with", "yield",
+    "let", "static", "implements", "interface", "package", "private", "protected", "public", "await", "eval",
+    "arguments", "undefined", "NaN", "Infinity", "Object", "Array",
+];
+
 fn get_var_name(mut var_id: usize) -> String {
     let mut var_name = String::new();
     var_name.push(VAR_NAME_START_CHARS[var_id % VAR_NAME_START_CHARS.len()]);
@@ -202,6 +211,10 @@ fn get_var_name(mut var_id: usize) -> String {
     while var_id > 0 {
         var_name.push(VAR_NAME_CHARS[var_id % VAR_NAME_CHARS.len()]);
         var_id /= VAR_NAME_CHARS.len();
+    }
+    if RESERVED_VAR_NAMES.contains(&var_name.as_str()) {
+        // `$` is not in the name alphabet, so the result cannot collide with another generated name
+        var_name.push('$');
     }
     var_name
 }
